@@ -226,3 +226,39 @@ def c06_tangential(ctx, shape):
                 oks.append(eq(tang[i][f], mats[i][f].dot(u)))
         ctx.ensure("full face flux = (normal flux, tangential reconstructions) per face", and_(*oks))
     ctx.ensure("no module- or class-level state written (frame)", frame.diff(before, frame.snapshot(FRAME_MODS)) == [])
+
+
+@ob("C06.results_independent", cases=lambda tier: [dict(shape=s) for s in ([(4,), (2, 2), (3, 2), (2, 1, 2), (2, 2, 2)] if tier == "quick" else [s for s in shapes(tier) if np.prod(s) > 1][::3])],
+    mods=MODS, funcs=FUNCS, stubs=STUBS, samples=(1, 2),
+    cite="Cell fluxes reconstructed from face fluxes ..., cell-to-face averages ..., tangential reconstruction (each result is a value, not a view of operator-internal storage)",
+    note="relational: the result of an earlier application of an operator object / function is not altered by a later application to other data, results do not share memory, "
+         "arguments are not written (after seed C06_e: a reconstruction operator returning one internal buffer)")
+def c06_results_independent(ctx, shape):
+    grid, h = mk_grid(ctx, shape)
+    dim = len(shape)
+    nf, nc = int(grid.num_faces), int(grid.num_cells)
+    u, v = ctx.array("u", (nf,)), ctx.array("v", (nf,))
+    q, p = ctx.array("q", shape, pos=True, sample=(0.1, 5.0)), ctx.array("p", shape, pos=True, sample=(0.1, 5.0))
+    full = darsia.FVFullFaceReconstruction(grid)
+    tang = darsia.FVTangentialFaceReconstruction(grid)
+    div = darsia.FVDivergence(grid)
+    ops = {
+        "FVFullFaceReconstruction.__call__": (lambda x: full(x), u, v),
+        "FVTangentialFaceReconstruction.__call__ (concatenated)": (lambda x: tang(x), u, v),
+        "FVTangentialFaceReconstruction.__call__ (list)": (lambda x: np.array(tang(x, False), dtype=object if ctx.sym else float), u, v),
+        "face_to_cell": (lambda x: darsia.face_to_cell(grid, x), u, v),
+        "FVDivergence.mat.dot": (lambda x: div.mat.dot(x), u, v),
+        "cell_to_face_average(harmonic)": (lambda x: darsia.cell_to_face_average(grid, x, "harmonic"), q, p),
+        "cell_to_face_average(arithmetic)": (lambda x: darsia.cell_to_face_average(grid, x, "arithmetic"), q, p),
+    }
+    if dim == 1:
+        ops = {k: o for k, o in ops.items() if "Tangential" not in k}
+    for name, (op, a, b) in ops.items():
+        a0, b0 = a.copy(), b.copy()
+        r1 = np.asarray(op(a))
+        keep = r1.copy()
+        r2 = np.asarray(op(b))
+        ctx.ensure(f"{name}: an earlier result is not altered by a later application", same(r1, keep))
+        ctx.ensure(f"{name}: two results do not share memory", r1.size == 0 or not np.shares_memory(r1, r2))
+        ctx.ensure(f"{name}: arguments untouched", same(a, a0) and same(b, b0))
+        ctx.ensure(f"{name}: applying again to the first argument reproduces the first result", eq(np.asarray(op(a)), keep) if r1.size else True)
